@@ -169,7 +169,7 @@ func (c *Collector) ViolationFor(prop, signature, message string, witness any) s
 	c.mu.Lock()
 	defer c.mu.Unlock()
 	c.nviol++
-	name := fmt.Sprintf("%s-%d-s%d-%d.json", prop, c.cfg.Seed, c.cfg.Shard, c.nviol)
+	name := fmt.Sprintf("%s-%d-%s%d-%d.json", prop, c.cfg.Seed, os.Getenv("VERIF_PART"), c.cfg.Shard, c.nviol)
 	path := filepath.Join(c.cfg.Replays, name)
 	if len(c.res.Violations) < 200 {
 		b, err := json.MarshalIndent(map[string]any{
@@ -203,7 +203,11 @@ func (c *Collector) Flush() error {
 		return err
 	}
 	_ = os.MkdirAll(c.cfg.OutDir, 0o755)
-	return os.WriteFile(filepath.Join(c.cfg.OutDir, fmt.Sprintf("%s.shard%d.json", c.res.Property, c.cfg.Shard)), b, 0o644)
+	part := os.Getenv("VERIF_PART")
+	if part == "" {
+		part = "main"
+	}
+	return os.WriteFile(filepath.Join(c.cfg.OutDir, fmt.Sprintf("%s.%s.shard%d.json", c.res.Property, part, c.cfg.Shard)), b, 0o644)
 }
 
 // FP hashes arbitrary parts into a short fingerprint string.
